@@ -51,7 +51,10 @@ def ident(rnd, used):
     raise RuntimeError('ident')
 
 
-def symbol(rnd, used):
+def symbol(rnd, used, allow_dup=False):
+    # now and then two units of a type share a symbol (look-ups must return the first in iteration order)
+    if allow_dup and used and rnd.random() < 0.12:
+        return rnd.choice(sorted(used))
     for _ in range(100):
         s = ''.join(rnd.choice(SYMCH) for _ in range(rnd.randint(1, 4)))
         if s not in used:
@@ -85,7 +88,7 @@ def gen_type(rnd, name, used_ids, kind, derive=None, n_units=None, allow_ties=Tr
         while len(chosen) < n - 1:      # more units than distinct spellings: repeat scales (more ties)
             chosen.append(rnd.choice(SCALES))
         for lit, val in chosen:
-            u = {'w': ident(rnd, used_ids), 'sym': symbol(rnd, syms), 'pfx': rnd.choice(SI) if rnd.random() < 0.4 else None,
+            u = {'w': ident(rnd, used_ids), 'sym': symbol(rnd, syms, True), 'pfx': rnd.choice(SI) if rnd.random() < 0.4 else None,
                  'lit': lit, 'def': {'f': '%d/%d' % (val.numerator, val.denominator), 'of': ru['w']}}
             if rnd.random() < 0.3:
                 u['doc'] = '%s·%s' % (lit, ru['sym'])
@@ -107,7 +110,7 @@ def gen_type(rnd, name, used_ids, kind, derive=None, n_units=None, allow_ties=Tr
                     used_ids.add(lw.lower())
                     names[2] = lw
         for w_ in names:
-            u = {'w': w_, 'sym': symbol(rnd, syms), 'pfx': None, 'def': None}
+            u = {'w': w_, 'sym': symbol(rnd, syms, True), 'pfx': None, 'def': None}
             if rnd.random() < 0.3:
                 u['doc'] = 'unit of ' + name
             units.append(u)
